@@ -192,9 +192,11 @@ def package_specs(thorough):
 #          'Pa' setOptionForNode(<plain node stage0.src>, '#command.arguments', value) ; store_unreplicated_flowir_to_disk()
 #          'Pv' setOptionForNode(<special node>, 'g', value) ; store   (special = a replica / aggregate / looped instance)
 #          'Pe' setOptionForNode(<sink node>, '#command.executable', value) ; store   (what checkExecutables does)
+# quick:    DoWhile packages {I, Pv}, other packages {Pa, Pv};  thorough: DoWhile {I, Pa, Pv}, other {Pa, Pv, Pe}
 def alphabet(spec, thorough):
     if thorough:
-        return (['I'] if spec['loop'] else []) + ['Pa', 'Pv', 'Pe']
+        # Pe (what checkExecutables does to the sink) is exercised on the packages without a loop
+        return ['I', 'Pa', 'Pv'] if spec['loop'] else ['Pa', 'Pv', 'Pe']
     # quick: DoWhile packages interleave iterations with patches of the latest loop instance; the patch of the plain
     # node (Pa) is exercised on the packages without a loop
     return ['I', 'Pv'] if spec['loop'] else ['Pa', 'Pv']
